@@ -125,10 +125,15 @@ fn calc_max_day_cost_per_sec(all_deltas: &Vec<TxDelta>) -> MaxDayCosts {
     let sorted_days = sorted_days; // finalize
 
     // Go through each day and populate the ACB for every seen security in each MaxSingleDayCosts
+    // Securities are visited in sorted order: the day's total is accumulated in
+    // that order, and Decimal addition rounds once the mantissa is full, so the
+    // order must not follow the set's per-process iteration order.
+    let mut sorted_secs: Vec<&Security> = security_set.iter().collect();
+    sorted_secs.sort();
     let mut last_acbs = HashMap::<Security, GreaterEqualZeroDecimal>::new();
     for day in sorted_days {
         let max_costs = max_costs_by_day.get_mut(&day).unwrap();
-        for sec in &security_set {
+        for sec in sorted_secs.iter().copied() {
             let last_acb = *max_costs
                 .sec_max_cost_for_day
                 .get(sec)
